@@ -17,6 +17,7 @@ import (
 type Transaction struct {
 	ID          uuid.UUID
 	Cache       *cache.TableCache
+	// DeletedRows holds the rows deleted by the transaction, see deletedKey
 	DeletedRows map[string]struct{}
 	Model       model.DatabaseModel
 	DbName      string
@@ -177,13 +178,19 @@ func (t *Transaction) Transact(operations ...ovsdb.Operation) ([]*ovsdb.Operatio
 	return results, updates.NewDatabaseUpdate(update, refs)
 }
 
+// deletedKey is the key of a row in DeletedRows: rows of different tables may
+// have the same uuid
+func deletedKey(table, uuid string) string {
+	return table + "/" + uuid
+}
+
 func (t *Transaction) applyReferenceUpdates(update updates.ModelUpdates) error {
 	tables := update.GetUpdatedTables()
 	for _, table := range tables {
 		err := update.ForEachModelUpdate(table, func(uuid string, old, new model.Model) error {
 			// track deleted rows due to reference updates
 			if old != nil && new == nil {
-				t.DeletedRows[uuid] = struct{}{}
+				t.DeletedRows[deletedKey(table, uuid)] = struct{}{}
 			}
 			// warm the cache with updated and deleted rows due to reference
 			// updates
@@ -240,7 +247,7 @@ func (t *Transaction) rowsFromTransactionCacheAndDatabase(table string, where []
 	// prefer rows from transaction cache while copying into cache
 	// rows that are in the db.
 	for rowUUID, row := range rows {
-		if _, deleted := t.DeletedRows[rowUUID]; deleted {
+		if _, deleted := t.DeletedRows[deletedKey(table, rowUUID)]; deleted {
 			// deleted by this transaction, do not bring it back to the
 			// transaction cache
 			delete(rows, rowUUID)
@@ -266,8 +273,10 @@ func (t *Transaction) rowsFromTransactionCacheAndDatabase(table string, where []
 		rows[rowUUID] = row
 	}
 	// exclude deleted rows
-	for rowUUID := range t.DeletedRows {
-		delete(rows, rowUUID)
+	for rowUUID := range rows {
+		if _, deleted := t.DeletedRows[deletedKey(table, rowUUID)]; deleted {
+			delete(rows, rowUUID)
+		}
 	}
 	return rows, nil
 }
@@ -294,7 +303,7 @@ func (t *Transaction) checkIndexes() error {
 				return err
 			}
 			for _, existing := range errIndexExists.Existing {
-				if _, isDeleted := t.DeletedRows[existing]; isDeleted {
+				if _, isDeleted := t.DeletedRows[deletedKey(table, existing)]; isDeleted {
 					// this model is deleted in the transaction, ignore it
 					continue
 				}
@@ -317,7 +326,7 @@ func (t *Transaction) Insert(op *ovsdb.Operation) (ovsdb.OperationResult, *updat
 	}
 
 	// the uuid must not be in use by a row of the table
-	if _, deleted := t.DeletedRows[op.UUID]; !deleted {
+	if _, deleted := t.DeletedRows[deletedKey(op.Table, op.UUID)]; !deleted {
 		exists := false
 		if tc := t.Cache.Table(op.Table); tc != nil && tc.HasRow(op.UUID) {
 			exists = true
@@ -445,7 +454,7 @@ func (t *Transaction) Delete(op *ovsdb.Operation) (ovsdb.OperationResult, *updat
 		}
 
 		// track delete operation in transaction to complement cache
-		t.DeletedRows[uuid] = struct{}{}
+		t.DeletedRows[deletedKey(op.Table, uuid)] = struct{}{}
 	}
 
 	return ovsdb.OperationResult{Count: len(rows)}, &update
